@@ -22,7 +22,6 @@ package c14
 import (
 	"encoding/json"
 	"fmt"
-	"os"
 	"strings"
 	"time"
 
@@ -36,6 +35,9 @@ type group struct {
 }
 
 // ---- value alphabets ----------------------------------------------------------------------------
+
+var symbolNames = map[string]string{`"`: "quote", `\`: "backslash", ` `: "space", `a`: "a", `O`: "O", `R`: "R", `(`: "lparen", `)`: "rparen", `=`: "eq", `1`: "1",
+	`é`: "e-acute", "\n": "newline", "😀": "emoji", `'`: "apostrophe", `~`: "tilde"}
 
 var sigma = []string{`"`, `\`, ` `, `a`, `O`, `R`, `(`, `)`, `=`, `1`, `é`}
 var sigmaPlus = append(append([]string{}, sigma...), "\n", "😀", `'`, `~`)
@@ -170,6 +172,9 @@ func (e *tokenEnum) visit(text string, seq []int, dead bool) {
 				o.fact("tok:" + e.tp.alphabet[t])
 			}
 			o.fact(fmt.Sprintf("text:accepted-length:%d", len(seq)))
+			if len(seq) >= 4 && e.c.WantSample() && strings.Contains(text, `"`) && strings.Contains(text, "(") {
+				e.c.Sample(cs)
+			}
 			if dead {
 				ps = append(ps, Problem{Key: "harness:pruning-unsound", What: fmt.Sprintf("%q (%s) is accepted although a proper prefix was classified as dead", text, cfg)})
 			}
@@ -440,6 +445,16 @@ func record(c *mc.Ctx, cs *Case, o *obs, ps []Problem) {
 	for _, f := range o.facts {
 		c.Fact(f)
 	}
+	if cs.Kind != "text" && o.accepted {
+		// per-symbol hit counts of the substituted / focus values
+		for _, v := range []string{cs.V, cs.W, focusValue(cs)} {
+			for _, r := range v {
+				if n, ok := symbolNames[string(r)]; ok {
+					c.Fact("sym:" + n)
+				}
+			}
+		}
+	}
 	if o.outcome != "" {
 		c.Outcome(o.outcome)
 	}
@@ -448,18 +463,20 @@ func record(c *mc.Ctx, cs *Case, o *obs, ps []Problem) {
 	}
 }
 
+func focusValue(cs *Case) string {
+	if cs.Tree == nil || cs.Focus < 0 {
+		return ""
+	}
+	conds := cs.Tree.conds(nil)
+	if cs.Focus < len(conds) {
+		return conds[cs.Focus].Val
+	}
+	return ""
+}
+
 func run(c *mc.Ctx) {
 	dates.SetNowFunc(dates.NewFixedNow(time.Date(2025, 5, 4, 12, 30, 45, 0, time.UTC)))
 	gs := allGroups(c.Tier)
-	if f := os.Getenv("C14_DEV_FILTER"); f != "" {
-		var keep []group
-		for _, g := range gs {
-			if strings.HasPrefix(g.name, f) {
-				keep = append(keep, g)
-			}
-		}
-		gs = keep
-	}
 	off := 0
 	if len(gs) > 0 {
 		off = int(uint64(c.Seed) % uint64(len(gs)))
@@ -485,7 +502,7 @@ func run(c *mc.Ctx) {
 			}
 			record(c, cs, o, ps)
 			nth++
-			if nth == 500 && c.WantSample() && i%97 == 5 {
+			if nth == 50 && c.WantSample() && i%7 == 5 {
 				c.Sample(cs)
 			}
 		})
@@ -532,6 +549,9 @@ func guards(r *mc.Result, tier string) []string {
 		"constructed:already-normal", "constructed:needs-flattening", "engine:start_session", "engine:send_broadcast"} {
 		need(v)
 	}
+	for _, n := range symbolNames {
+		need("sym:" + n)
+	}
 	for _, k := range []string{"text", "constructed", "template", "engine"} {
 		if r.Counters["accepted:"+k] == 0 {
 			f = append(f, "no accepted case of kind "+k)
@@ -550,9 +570,10 @@ func init() {
 	mc.Register(&mc.Check{
 		ID:    "C14",
 		Level: "exploration",
-		Rule: "(i) every sequence of <= 5 (quick) / 6 (thorough) tokens over a 25-token alphabet (5 properties, 7 comparators + has/is, AND, or, parentheses, 7 bare/quoted literals incl. one with an escaped quote and trailing escaped backslash), joined by spaces, pruned only below prefixes the real generated parser proves dead (first syntax error at a non-EOF token in the lexically stable part; validated by visiting all sequences <= 3/4 unpruned), under 2 redaction policies x {no resolver, mock resolver}: each accepted query is formatted and re-parsed and the two trees compared node by node; " +
-			"(ii) NewCondition/NewBoolCombination trees: all 311 shapes of depth <= 2 (root arity 1-3, children: condition or 1-2-condition combination) x every string of <= 2/3 symbols over a 15-symbol alphabet at every condition position x 2 context values x 4 configurations, 8 selected shapes x every string of <= 4/5 symbols over the 11-symbol alphabet {\" \\ space a O R ( ) = 1 e-acute} x 2 configurations, and all pairs of strings <= 2 (thorough also <= 3) at two positions of 5 shapes: Parse(Stringify(n)) must equal n's reference normal form (n itself when already flat); " +
-			"(iii) 6 templates evaluated by the real excellent template evaluator with flows.ContactQueryEscaping for the same values at each position and all pairs <= 2/3: the parsed text must be exactly the template's tree with the values as literals; (iv) the same templates as contact_query of real start_session and send_broadcast actions in a real session for all value pairs <= 1/2. " +
+		Rule: "every case runs the real contactql.ParseQuery / Condition.String / Stringify / excellent template evaluator with flows.ContactQueryEscaping / engine actions; configurations = 2 redaction policies x {no resolver, mock resolver} (4; 'diagonal' = the 2 that still vary both). " +
+			"(i) every space-joined sequence of <= 5 tokens over 23 tokens (quick; 4 configurations up to length 4, diagonal at 5) / <= 6 over 25 tokens (thorough; 4 configurations up to 5, diagonal at 6): 5 properties, comparators = != ~ > <= (+ < >= thorough) and aliases has/is, AND, or, parentheses, 7 bare/quoted literals incl. one with an escaped quote and a trailing escaped backslash; subtrees are skipped only below prefixes the generated parser proves dead (first syntax error at a non-EOF token in the lexically stable part, text not phone-like), which is validated by visiting every sequence <= 3/4 regardless; each accepted query is formatted and re-parsed and the two trees are compared node by node; " +
+			"(ii) NewCondition/NewBoolCombination trees: all 311 shapes of depth <= 2 (root arity 1-3; children: a condition or a 1-2-condition combination) x every string <= 2 over a 15-symbol alphabet (thorough also <= 3 over the 11-symbol one) as the value at every position x 2 context values; 8 selected shapes x every string <= 4/5 over the 11 symbols {\" \\ space a O R ( ) = 1 e-acute}; all pairs of strings <= 2 (thorough also <= 3) at two positions of 5 shapes: Parse(Stringify(n)) must equal n's reference normal form (n itself when already flat); " +
+			"(iii) 6 templates x the same values at each position with 2 context values, and all value pairs <= 2/3, evaluated by the real template evaluator with the engine's escaping: the parsed text must be exactly the template's tree with the values as its literals; (iv) the same templates as contact_query of real start_session and send_broadcast actions in a real session for all value pairs <= 1/2 symbols. " +
 			"distinct_nontrivial counts accepted (sequence, configuration) pairs, constructed queries and substituted templates (each a distinct tuple); evaluations counts ParseQuery calls.",
 		Assumptions: []string{
 			"bounded token alphabet, sequence length, value alphabet and value length as stated; values are valid UTF-8",
